@@ -38,6 +38,9 @@ structure Runtime where
   clearReplaces : Bool
   /-- `SingleTask.stop/restart` awaits the cancelled task (asyncio) -/
   stopAwaitsCancelled : Bool
+  /-- `run()` hands the protocol `ConnectionState(self.state.copy())`: every connection works on its own copy of the
+      worker's lifespan state -/
+  copiesState : Bool := true
 deriving DecidableEq, Repr
 
 /-- what `protocol.handle` is called with -/
@@ -147,9 +150,11 @@ def St.obs (s : St) : Obs :=
     readerDone := s.readerDone, timerWhileOpen := if s.transportClosed then none else some s.timerArmed }
 
 /-- the fields two runtimes must agree on for their shells to be indistinguishable while the transport is open;
-    `closedReenters`, `closeStopsIdle`, `clearReplaces` and `stopAwaitsCancelled` may differ -/
+    `closedReenters`, `closeStopsIdle`, `clearReplaces` and `stopAwaitsCancelled` may differ; `copiesState` is what the
+    applications of a connection see in `scope["state"]` and what they can do to the worker's own dict -/
 def Compatible (a b : Runtime) : Bool :=
   a.readEndStopsIdle == b.readEndStopsIdle && a.eofAlwaysPassedOn == b.eofAlwaysPassedOn &&
-  a.writeErrorClosesProtocol == b.writeErrorClosesProtocol && a.timerTellsProtocolFirst == b.timerTellsProtocolFirst
+  a.writeErrorClosesProtocol == b.writeErrorClosesProtocol && a.timerTellsProtocolFirst == b.timerTellsProtocolFirst &&
+  a.copiesState == b.copiesState
 
 end HC.Conn.Shell
